@@ -5,5 +5,5 @@ CONSTANTS
   MaxLen = 7
   MaxSets = 3
   Weak = {}
-INVARIANTS FragmentSize RoundTrip CutRule
+INVARIANTS FragmentSize RoundTrip CutRule EverySetIsAnItem
 CHECK_DEADLOCK FALSE
